@@ -19,6 +19,9 @@ func c02Resume(out *emit.Out, in c02Input) {
 	offered := false
 	run := func(insecure bool, resume bool) puppet.TargetOutcome {
 		cc := tk.EPConfig{Suites: []uint16{in.Suite}, Ident: "cli", ServerName: "server.test", Insecure: insecure, Cache: "shared"}
+		if !insecure {
+			cc.TimeShiftYears = in.TimeShift
+		}
 		script := func(p *puppet.Peer) {
 			p.Sig, p.Enc = sig, enc
 			p.Absorb(5)
@@ -70,7 +73,7 @@ func c02Resume(out *emit.Out, in c02Input) {
 		return
 	}
 	second := run(false, true)
-	sessOK := c02Verify(chain[0]) && c02Verify(chain[1])
+	sessOK := c02VerifyAt(chain[0], in.TimeShift) && c02VerifyAt(chain[1], in.TimeShift)
 	acc := second.Res.Complete && second.Res.Err == ""
 	direct := ""
 	if second.Panic != "" {
